@@ -5,6 +5,7 @@ CONSTANTS
   Funder = "s0"
   InitialUnits <- mcInitialUnits
   Record = TRUE
+  Weight = 12
   Depth = 8
 INVARIANTS
   DumpHist
